@@ -670,9 +670,11 @@ def check_r4(facts, rep, crate):
                     if b.term(gb)["k"] != "SwitchInt":
                         continue
                     g = guard_at(facts, b, tr, gb)
-                    if g is not None and g.kind == "discr" and (g.adt or "").endswith("option::Option") and \
-                            any(x.kind == "call" and x[4] == mb for x in walk(g.pred)):
-                        somes += [sb for sb, v in g.edges if v == "Some"]
+                    if g is not None and g.kind == "discr" and any(x.kind == "call" and x[4] == mb for x in walk(g.pred)):
+                        if (g.adt or "").endswith("option::Option"):
+                            somes += [sb for sb, v in g.edges if v == "Some"]
+                        elif (g.adt or "").endswith("ControlFlow"):
+                            somes += [sb for sb, v in g.edges if v == "Continue"]       # `self.data.pop()?`
                 if somes:
                     starts = somes
             after = any(r in b.reachable_from(st_, cut=store_bbs) for st_ in starts for r in rets)
